@@ -10,13 +10,17 @@
      C18_suspend_waits         with an empty buffer the stage and task become SUSPENDED durably and no continuation
                                is pushed
      C18_suspended_stays       StartStage / CompleteStage / SkipStage never write a SUSPENDED stage
+     C18_rearm_keeps_mailbox   every stage write of a JumpToStage or RestartStage handling (re-arm of the target, the
+                               source, their downstream and synthetic stages) leaves the written stage's buffered
+                               signals exactly as they were, and creates no stage: a persistent signal that arrived
+                               before its stage suspended survives every loop iteration
    OPEN: C18_persistent_once as a counting theorem over whole runs (sent = buffered + delivered) and C18_race
      (signal handler vs. suspending task result interleaved at statement level; known finding F8 for
      SignalStage vs StartStage) are decided by correspondence / interleaving runs only. *)
 From Coq Require Import List Bool Arith ZArith.
 Import ListNotations.
 From Stab.model Require Import Base StatusM Readiness StageStat Engine.
-From Stab.proofs Require Import EngineLegal SignalP EngineEx.
+From Stab.proofs Require Import EngineLegal SignalP BufferedP EngineEx.
 
 Theorem C18_persistent_not_lost : forall s id i n st,
   get_stage s i = Some st ->
@@ -67,7 +71,12 @@ Example C18_witness :
   statuses (drain susp_oracle 60 (step susp_oracle waiting (Signal 0 5 true))) = (SUCCEEDED, [SUCCEEDED; SUCCEEDED]).
 Proof. vm_compute. repeat split. Qed.
 
+Theorem C18_rearm_keeps_mailbox : forall s id i tg c,
+  KB s (handle_jump s id i tg c) /\ KB s (handle_restart_stage s id i).
+Proof. intros. split; [apply jump_keeps_buffered|apply restart_keeps_buffered]. Qed.
+
 Print Assumptions C18_persistent_not_lost.
+Print Assumptions C18_rearm_keeps_mailbox.
 Print Assumptions C18_transient.
 Print Assumptions C18_consume_once.
 Print Assumptions C18_suspend_waits.
